@@ -165,7 +165,7 @@ func c02Mutate(r *Rng, src, other []byte, maxSize int) ([]byte, string) {
 		}
 	case 5:
 		kind = "deep-nesting"
-		n := 1 << uint(2+r.Intn(11)) // 4 … 4096
+		n := 1 << uint(2+r.Intn(10)) // 4 … 2048
 		n = min(n, maxSize/4)
 		pairs := [][2]string{{"[", "]"}, {"{a:", "}"}, {"(", ")"}, {"{", "}"}, {"[...", "]"}, {"a:", ""}, {"-", ""}, {"!", ""},
 			{"\"\\(", ")\""}, {"[for x in [1] ", "]"}, {"if true {", "}"}, {"{[string]:", "}"}, {"a.", ""}, {"a[", "]"}, {"len(", ")"}, {"1&(", ")"}, {"*", ""}, {"<", ""}}
